@@ -74,6 +74,8 @@ def tree_shape(root):
     def go(n):
         if isinstance(n, FunctionNode):
             return ('dyn',)
+        if isinstance(n, ComposedNode) and type(n).__name__ not in ('ConfigList', 'ConfigDict', 'ConfigTuple'):
+            return ('dyn',)   # list-typed nodes with their own evaluation (!path, !rec, ...) - also after a merge promoted them
         if isinstance(n, ComposedNode):
             if isinstance(n, list):
                 return [go(c) for c in n._children.values()]
@@ -132,6 +134,17 @@ def judge(texts):
         return dict(texts=texts, reason='cfg.name is not cfg["name"] (attribute access to a mapping entry)', key=[str(x) for x in bad])
     if fingerprint(root) != before or cfg.ayns.source is not root:
         return dict(texts=texts, reason='evaluating modified the merged source tree that the config keeps')
+    # Config evaluates a deep copy of the tree: the result must be what evaluating the tree itself gives
+    from .C10 import canon
+    try:
+        from awesomeyaml.eval_context import EvalContext
+        direct = EvalContext().evaluate(root)
+        if canon(direct) != canon(cfg):
+            return dict(texts=texts, reason='the config (evaluated from a deep copy) differs from the evaluation of the merged tree itself', config=repr(cfg)[:300], direct=repr(direct)[:300])
+    except Exception as e:
+        return dict(texts=texts, reason='the tree evaluates through Config but not directly', message=str(e)[:200])
+    if fingerprint(root) != before:
+        return dict(texts=texts, reason='evaluating modified the merged source tree')
     # evaluating the source again gives an equal result
     try:
         cfg2 = Config(cfg.ayns.source)
@@ -228,6 +241,40 @@ def gen_symbol_case(rng):
     return dict(script=SYMBOL_SCRIPT % (t1, name, name, name, sym), expect=expect, other={'v': sym + 1, 'w': 'x%d' % sym})
 
 
+def judge_rec_files(case):
+    """several !rec nodes in one tree: each builds (and discards) a temporary sub-tree while the tree is being evaluated; the evaluated config must
+    hold, under each key, exactly the merged content of the files named there"""
+    from awesomeyaml.config import Config
+    from awesomeyaml.builder import Builder
+    from .C06 import Sandbox
+    import yaml as pyyaml
+    files = {'one.yaml': {'name': 'one', 'sizes': [1, 2], 'opts': {'k': 'one', 'flag': True}}, 'two.yaml': {'name': 'two', 'sizes': [3, 4], 'opts': {'k': 'two', 'flag': False}},
+             'three.yaml': {'name': 'three', 'extra': {'deep': [{'a': 1}, {'b': 2}]}}}
+    with Sandbox() as sb:
+        for nm, d in files.items():
+            sb.write('d/' + nm, pyyaml.safe_dump(d, default_flow_style=True, sort_keys=False))
+        main = sb.write('d/main.yaml', case['text'])
+        try:
+            b = Builder()
+            b.add_source(main)
+            cfg = Config(b.build())
+        except Exception as e:
+            return dict(case=case, reason='unexpected failure', message=type(e).__name__ + ': ' + str(e)[:200])
+    got = base_plain(dict(cfg))
+    if base.typed(got) != base.typed(case['expect']):
+        return dict(case=case, reason='the evaluated config does not mirror the tree (content produced by !rec nodes)', got=repr(got)[:400])
+    return None
+
+
+def rec_file_cases():
+    f1 = {'name': 'one', 'sizes': [1, 2], 'opts': {'k': 'one', 'flag': True}}
+    f2 = {'name': 'two', 'sizes': [3, 4], 'opts': {'k': 'two', 'flag': False}}
+    f3 = {'name': 'three', 'extra': {'deep': [{'a': 1}, {'b': 2}]}}
+    m12 = {'name': 'two', 'sizes': [3, 4], 'opts': {'k': 'two', 'flag': False}}
+    return [dict(recfiles=True, text='first: !rec [one.yaml]\nsecond: !rec [two.yaml]\nthird: !rec [three.yaml]\nplain: {x: 1}\n', expect={'first': f1, 'second': f2, 'third': f3, 'plain': {'x': 1}}),
+            dict(recfiles=True, text='a: {inner: !rec [two.yaml]}\nb: !rec [one.yaml, two.yaml]\nc: [!rec [three.yaml], !rec [one.yaml]]\n', expect={'a': {'inner': f2}, 'b': m12, 'c': [f3, f1]})]
+
+
 def gen_pydata(rng):
     def val(d):
         r = rng.random()
@@ -252,6 +299,9 @@ def run(rep, tier, rng):
         rep.case('\n'.join(t), any('{' in x[1:] for x in t), sample=t)
     base.run_oracle(rep, 'C11', 'no node in the result / shape / source untouched / re-evaluation / mutation isolation', inputs, judge)
     py = [gen_pydata(rng) for _ in range(200 if tier == 'quick' else 3000)]
+    base.run_oracle(rep, 'C11', 'several !rec nodes (temporary sub-trees built during evaluation)', rec_file_cases(), judge_rec_files)
+    base.run_oracle(rep, 'C11', 'promoted list-typed nodes: Config (deep copy) = direct evaluation', [["{out: [!force results, tmp, !force logs], k: 1}", "{out: !path [scratch, cache, old, extra]}"],
+                                                                                                     ["{out: [!force a, b], f: [1, !force 2, 3]}", "{out: !path:cwd [x, y, z], f: !path [p, q, r, s]}"]], judge)
     under = [["{_target_: x, _meta_: {_k: 1, n: [{_steps_: 2}, 3]}, a: {_p: !call:vmod.u1 {x: 1}}}"], ["{m: {_a: 1}}", "{m: {_b: {_c: [1, {_d: 2}]}}}"]]
     base.run_oracle(rep, 'C11', 'keys that start with an underscore', under, judge)
     from .. import scenrun
@@ -283,6 +333,10 @@ def replay(data):
     r = data['replay']
     if 'input' in r:
         x = r['input']
+        if isinstance(x, dict) and (x.get('recfiles') or (isinstance(x.get('case'), dict) and x['case'].get('recfiles'))):
+            f = judge_rec_files(x.get('case', x))
+            print('replay:', 'property FAILS' if f else 'property holds', f or '')
+            return 1 if f else 0
         if isinstance(x, dict) and x.get('symbols'):
             from .. import scenrun
             print('replay (run the script in a fresh interpreter):', scenrun.run_batch([dict(script=x['script'])])[0])
